@@ -21,7 +21,7 @@ RULE = ("one case = 1-2 base signals (scalar or array of rank<=3, real/complex, 
         "None-ness of the sensitivity before the op); non-trivial = at least one operation went through a slice or an aliasing probe ran")
 PROBES = ["nested_slice_write", "same_object_added_twice", "caller_mutation_after_add", "keep_alloc_inplace_zero",
           "slice_add_creates_base_sens", "index_array_slice", "tuple_slice", "slice_reset_partial", "scalar_signal",
-          "complex_data", "element_slice", "set_sens_none_on_slice", "index_array_on_later_axis"]
+          "complex_data", "element_slice", "set_sens_none_on_slice", "index_array_on_later_axis", "zero_d_array_signal"]
 FAULT_KINDS = ["aliasing_probe_same_object", "aliasing_probe_caller_mutation"]
 COMPONENTS = {"real": ["pymoto.Signal", "pymoto.core_objects.SignalSlice"], "stub": []}
 ASSUMPTIONS = ["index arrays contain no repeated entries; nested slices are basic slices (as the property states)",
@@ -49,8 +49,11 @@ def gen(rng, idx, tier):
     sigs = []
     for _ in range(nb):
         scalar = bool(rng.random() < 0.12)
+        zero_d = bool(rng.random() < 0.1)
         rank = int(rng.integers(1, 4))
         shape = [int(rng.integers(1, 6)) for _ in range(rank)]
+        if zero_d and not scalar:
+            shape = []          # 0-d ndarray: a scalar value held in a (mutable) array
         sigs.append(dict(scalar=scalar, shape=shape, cplx=bool(rng.random() < 0.3), init_sens=bool(rng.random() < 0.3),
                          seed=int(rng.integers(1 << 30))))
     ops = []
@@ -171,6 +174,8 @@ def run(case):
             sens0 = np.zeros_like(st) if s["init_sens"] else None
         if s["cplx"]:
             probe("complex_data")
+        if not s["scalar"] and len(s["shape"]) == 0:
+            probe("zero_d_array_signal")
         obj = Signal(f"b{i}", state=st.copy() if hasattr(st, "copy") else st,
                      sensitivity=None if sens0 is None else (sens0.copy() if hasattr(sens0, "copy") else sens0))
         bases.append(obj)
@@ -329,7 +334,7 @@ def run(case):
                         mt.G += val2
                     else:
                         mt.G = mt.G + val2
-                if k == "mutate" and isinstance(given, np.ndarray) and given.ndim > 0:
+                if k == "mutate" and isinstance(given, np.ndarray):
                     given[...] = 12345.0       # the caller changes its array afterwards
                     probe("caller_mutation_after_add")
                     res["faults"]["aliasing_probe_caller_mutation"] = res["faults"].get("aliasing_probe_caller_mutation", 0) + 1
